@@ -22,7 +22,8 @@ RULE = ("K-inject: every (axis, direction) of UniformPlaneSource (thorough: also
         "the stored _E/_H/_time_offset_* of the source are also compared with that reconstruction. K-line: (2,2,n) "
         "periodic column, faces none along the axis, 6..10 steps of forward() vs the Lean `line` op for both "
         "polarisation pairs. Oracle (property scenario, thresholds as stated): 3x3 periodic cross-section, 10-cell PML "
-        "along the axis, >= 15 cells per wavelength, diagonal polarisation, PoyntingFluxDetector planes behind and in "
+        "along the axis, homogeneous background out of (eps_r, mu_r) = (1,1), (2.25,1), (1.5,2), (1,1.5), (3,1.5) (quick: one "
+        "dielectric/vacuum and one MAGNETIC background), >= 15 cells per wavelength in the medium, diagonal polarisation, PoyntingFluxDetector planes behind and in "
         "front, CW and pulse: time-integrated backward/forward power < 1e-3; quick: 2 of the 6 direction cases from the "
         "seed; thorough: all six x {CW, pulse} and GaussianPlaneSource (CW, radius 0.3..0.8 wavelengths, open space: PML on all faces, planes 10 cells away) < 10 %. "
         "non-trivial = every case (source on, non-zero increments).")
@@ -362,16 +363,22 @@ def k_line(ctx, c):
 
 
 # ------------------------------------------------------------------------------------------------ oracle
-def gen_oracle(rng, axis, direction, profile, kind="uniform"):
+MEDIA = [(1.0, 1.0), (2.25, 1.0), (1.5, 2.0), (1.0, 1.5), (3.0, 1.5)]     # homogeneous backgrounds (eps_r, mu_r)
+
+
+def gen_oracle(rng, axis, direction, profile, kind="uniform", medium=None):
     th = rng.uniform(0.5, 1.1) * rng.choice([1.0, -1.0])      # diagonal polarisation
     pol = [0.0, 0.0, 0.0]
     pol[(axis + 1) % 3], pol[(axis + 2) % 3] = float(np.cos(th)), float(np.sin(th))
     cpw = rng.choice([15, 16, 18, 20])
     c = {"axis": axis, "direction": direction, "kind": kind, "profile": profile, "pol": pol, "use_h": False,
-         "eps_r": rng.choice([1.0, 1.0, 2.25]), "mu_r": 1.0, "amp": 1.0, "widths": None, "along": "pml", "complex": False,
+         "amp": 1.0, "widths": None, "along": "pml", "complex": False,
          "cells_per_wavelength": cpw, "oracle": True, "seed": rng.np_seed()}
+    # dielectric AND magnetic homogeneous backgrounds: the injected E/H ratio must be the impedance sqrt(mu/eps) of the
+    # medium, which differs from the dielectric-only value exactly when mu_r != 1
+    c["eps_r"], c["mu_r"] = medium if medium is not None else rng.choice(MEDIA)
     if kind == "gauss":
-        c["eps_r"] = 1.0
+        c["eps_r"], c["mu_r"] = 1.0, 1.0
         c["radius_wl"] = rng.choice([0.3, 0.35, 0.45, 0.8])
         c["gap"] = 10      # planes a good half wavelength away from the (sub-wavelength, std = r/3) spot
     return c
@@ -436,8 +443,9 @@ def oracle_case(ctx, c):
     limit = 1e-3 if c["kind"] == "uniform" else 0.1
     ratio = abs(bwd) / fwd if fwd > 0 else float("inf")
     ctx.extra.setdefault("oracle_ratios", []).append({"axis": c["axis"], "direction": c["direction"], "kind": c["kind"],
-                                                      "profile": c["profile"], "ratio": ratio, "steps": steps})
+                                                      "profile": c["profile"], "eps_r": c["eps_r"], "mu_r": c["mu_r"], "ratio": ratio, "steps": steps})
     ctx.case(nontrivial=("oracle", c["axis"], c["direction"], c["profile"], c["kind"]), oracle=c["kind"] + "/" + c["profile"],
+             oracle_medium=f"eps{c['eps_r']}/mu{c['mu_r']}",
              **{f"oracle_axis{c['axis']}{c['direction']}": True})
     if not (fwd > 0) or not ratio < limit:
         ctx.violation(c, oracle_fails(c) or f"ratio {ratio:.3e}")
@@ -470,8 +478,8 @@ def run(ctx):
             oracle_case(ctx, gen_oracle(rng, a, d, "cw", kind="gauss"))
     else:
         (a1, d1), (a2, d2) = order[0], order[1]
-        oracle_case(ctx, gen_oracle(rng, a1, d1, "cw"))
-        oracle_case(ctx, gen_oracle(rng, a2, d2, "pulse"))
+        oracle_case(ctx, gen_oracle(rng, a1, d1, "cw", medium=rng.choice(MEDIA[:2])))
+        oracle_case(ctx, gen_oracle(rng, a2, d2, "pulse", medium=rng.choice(MEDIA[2:])))      # magnetic background
 
 
 def search(ctx, hints):
@@ -483,18 +491,19 @@ def search(ctx, hints):
             if h.get("oracle"):
                 todo.append(h)
             else:
+                med = (float(h.get("eps_r", 1.0)), float(h.get("mu_r", 1.0)))
                 for prof in ("cw", "pulse"):
-                    todo.append(gen_oracle(rng, h["axis"], h["direction"], prof))
+                    todo.append(gen_oracle(rng, h["axis"], h["direction"], prof, medium=med))
                 if h.get("kind") == "gauss":      # the 10 % bound is a statement about the carrier wavelength: CW only
                     todo.append(gen_oracle(rng, h["axis"], h["direction"], "cw", kind="gauss"))
     seen = set()
-    for (a, d) in SIX:
+    for i, (a, d) in enumerate(SIX):
         for prof in ("cw", "pulse"):
-            todo.append(gen_oracle(rng, a, d, prof))
+            todo.append(gen_oracle(rng, a, d, prof, medium=MEDIA[(i + (prof == "pulse")) % len(MEDIA)]))
     for (a, d) in SIX[:2]:
         todo.append(gen_oracle(rng, a, d, "cw", kind="gauss"))
     for c in todo:
-        key = (c["axis"], c["direction"], c["profile"], c["kind"])
+        key = (c["axis"], c["direction"], c["profile"], c["kind"], c["eps_r"], c["mu_r"])
         if key in seen:
             continue
         seen.add(key)
